@@ -77,6 +77,15 @@ class Impl:
             extra = "|reserved_events!=reservations_get:%s/%d" % (self.ids(st.reserved_events), len(st.reserved_items))
         getres = ",".join("%d:%d" % (self.tokid.get(id(e), -1), oid(it))
                           for e, it in zip(st.reserved_events, st.reserved_items))
+        if self.kind in BELTS and st.reserve_put_queue and not st.reservations_put and hasattr(st, "can_reserve_put") \
+                and self.env.peek() > self.env.now:        # the instant is over: the entrance's own timer event has run
+            # the store's own side-effect-free admission test says a request issued now would be granted,
+            # yet requests are waiting and none is granted: read by the oracle (C04), not part of the model's state
+            try:
+                if st.can_reserve_put():
+                    extra += "|stuck-put"
+            except Exception:  # noqa
+                pass
         return "|".join([",".join(str(oid(x)) for x in st.items), ",".join(str(oid(x)) for x in st.ready_items),
                          self.ids(st.reserve_put_queue), self.ids(st.reservations_put),
                          self.ids(st.reserve_get_queue), getres]) + extra
